@@ -79,7 +79,7 @@ def preflight(tier):
 
 def conditions(tier, seed, active):
     quick = tier == "quick"
-    out = tp.gen_conditions(__name__, "single", tier, seed, rate={"T1": 0.5, "T2": 1.0, "T3": 0.06}, pairs_quick=40, rest=False,
+    out = tp.gen_conditions(__name__, "single", tier, seed, rate={"T1": 0.5, "T2": 1.0, "T3": 0.06}, pairs_quick=30, rest=False, heavy_L=1,
                             tags_from_template=False)
     for c in out:
         c["tags"] = []
